@@ -1,6 +1,7 @@
 import PeliteModel.Driver.State
 import PeliteModel.Spec.Strings
 import PeliteModel.Model.Relocs
+import PeliteModel.Model.CStrFmt
 /-! Driver handlers for the operation families that carry their bytes inline. -/
 namespace Pelite.Driver
 open Pelite.Proto
@@ -61,8 +62,18 @@ def relocsBuild (a : List String) : String :=
     s!"ok {hex out} flat=[{fmtPairs (Relocs.flat out)}] ## roundtrip={if rt then 1 else 0} hyp={if hyp then 1 else 0} input=[{fmtPairs ps}]"
   | _ => "bad-op"
 
+/-- fmt_cstr <hex>: Debug and Display of the C string made of the bytes before the first NUL -/
+def fmtCStr (a : List String) : String :=
+  match a with
+  | [hx] =>
+    let bytes := ((unhex hx).toList.map (·.toNat)).takeWhile (· ≠ 0)
+    let toB (l : List Nat) : Bytes := (l.map UInt8.ofNat).toArray
+    s!"ok dbg={hex (toB (CStrFmt.debug bytes))} disp={hex (toB (CStrFmt.display bytes))}"
+  | _ => "bad-op"
+
 def dispatchPure : Handler := fun _ fam a =>
   match fam with
+  | "fmt_cstr" => some (fmtCStr a)
   | "strings" => some (strings a)
   | "relocs_raw" => some (relocsRaw a)
   | "relocs_build" => some (relocsBuild a)
